@@ -45,8 +45,8 @@ Theorem C08_example_valid : forall n, accepted n -> tvalid (to_otree n) (example
 Proof. exact example_valid. Qed.
 Print Assumptions C08_example_valid.
 
-(* ---- schemas with references (Model/OasRef.v): a value written as a type name and additionalProperties naming a type are
-   converted to $ref; `types` are the registered types, the components are their conversions.  A reference accepts what the
+(* ---- schemas with references (Model/OasRef.v): a value written as a type name, a type choice (@a | @b), a scalar with the rule
+   type: "@name", type names among the alternatives of `or`, and additionalProperties naming a type are converted to $ref; `types` are the registered types, the components are their conversions.  A reference accepts what the
    type accepts (insth h: by a derivation of height h - so recursive types are covered).  Every accepted value is valid
    against the converted schema with the references resolved in the components ... *)
 Theorem C08_ref_sound : forall types, types_accepted types ->
